@@ -158,8 +158,10 @@ def column_relative_humidity(q, p, t, axis=0):
         qs = np.zeros(dim)
         es = es.swapaxes(0,axis)
         qs = qs.swapaxes(0,axis)
+        # p holds the levels only (1-D) or has the shape of q
+        pl = p if np.ndim(p) < 2 else np.swapaxes(p, 0, axis)
         for i in range(0,l):
-            qs[i] = water_vapor_pressure2specific_humidity(es[i], p[i])
+            qs[i] = water_vapor_pressure2specific_humidity(es[i], pl[i])
         es = es.swapaxes(axis,0)
         qs = qs.swapaxes(axis,0)
         # qs to vmrs
